@@ -1,16 +1,16 @@
 SPECIFICATION Spec
 CONSTANTS
-  Actors = {"S", "A", "B"}
+  Actors = {"S", "A"}
   NoA = "none"
-  SupOf <- SupOf3
-  MaxMsgs <- MaxMsgs3
-  MaxInject <- MaxInject3
-  Outcomes = {"ok", "err"}
+  SupOf <- SupOfDef
+  MaxMsgs <- MaxMsgsDef
+  MaxInject <- MaxInjectDef
+  Outcomes = {"ok", "err", "panic"}
   MaxYield = 1
-  EnvOps <- EnvOps3
+  EnvOps <- EnvOpsDef
   KillCarriesState = TRUE
   Once = TRUE
-  Local = {}
+  Local = {"A"}
   MonPairs = {}
   Undecodable = {}
 INVARIANTS
